@@ -30,7 +30,7 @@ ASSUMPTIONS = [
     "when two reasons to raise coincide either exception is accepted",
     "which defects produce a disqualification is C10's subject; here the data object's own verdict feeds the table",
 ]
-DEFECTS = ["short", "long", "gaps_u", "gaps_t", "month_t", "neg_gas", "poor", "very_short", "small_group"]
+DEFECTS = ["short", "long", "gaps_u", "gaps_t", "month_t", "neg_gas", "poor", "very_short", "small_group", "poor_net"]
 # first weekends of a season (default maps): the span ends on the Saturday (1 weekend day in the new season), the Sunday (2) or a week later (3-4)
 SEASON_WEEKENDS = ["2018-06-02", "2018-11-03", "2019-06-01", "2017-11-04"]  # first Saturdays of summer / winter
 SEASON_LAST_WEEKENDS = ["2018-02-24", "2018-09-29", "2019-02-23", "2017-09-30"]  # last Saturdays of winter / summer
@@ -107,6 +107,9 @@ def defective_frame(c):
         df.iloc[10 * per, df.columns.get_loc("observed")] = -5.0
     if "poor" in d:
         df["observed"] = np.abs(rng.standard_cauchy(n)) * 5 + 0.01
+    if "poor_net" in d and fam == "hourly":
+        # a net exporter: heavy-tailed usage with a negative mean (CVRMSE undefined, PNRMSE poor)
+        df["observed"] = -np.abs(rng.standard_cauchy(n)) * 5 - 0.01
     if c.get("int_dtype") == "float32":
         for col in ("temperature", "observed"):
             df[col] = df[col].astype("float32")
@@ -214,7 +217,11 @@ def judge(c, rec):
             others = OTHER_TZ.get(tz, ["UTC"])
             other = others[c.get("other_tz_i", 0) % len(others)]
             cls = cls + ["other_tz=%s->%s" % (tz, other)]
-            rep = zoo.build_reporting(dict(b, tz=other), c["rep"])
+            fr = zoo.reporting_frame(dict(b, tz=other), c["rep"])
+            if fam == "hourly" and c.get("other_tz_i", 0) % 2 == 1:
+                fr["ghi"] = 150.0  # an irradiance column the (non-solar) model does not use must not disarm the guard
+                cls = cls + ["other_tz+ghi"]
+            rep = zoo.build_reporting(dict(b, tz=other), c["rep"], frame=fr)
         else:
             ofam = {"daily": "hourly", "billing": "daily", "hourly": "daily"}[fam]
             ob = dict(b, family=ofam, ghi=False)
